@@ -833,6 +833,10 @@ func c03(c *Ctx) (*report.Result, error) {
 	res.Explanation = "SSA of proxyStreamReceiver.sendAck: the guards dominating the Send of a freshly aggregated acknowledgement (not-first, not below lastSentMin), the phi feeding InclusiveLowWatermark (raw minimum only on edges where it does not exceed a known source high watermark, the clamp otherwise), a who-may-write inventory of lastSentMin / lastSentAck / lastExclusiveHighOriginal over package proxy, and the keep-alive's argument. Decides 'never decrease, never exceed the last exclusive high watermark' as shapes on every path; 'eventually equals the final high watermark' is a liveness statement over schedules and is not decided."
 	res.Assumptions = []string{"one sendAck goroutine per receiver incarnation writes lastSentMin"}
 	res.RuleDoc["O3.8"] = "no swallowed error in the files the mechanism lives in: no function returns a nil error on a path on which an error obtained from a call is known to be non-nil (io.EOF from a stream Recv, the normal end of a receive loop, is the one accepted idiom)"
+	res.RuleDoc["O3.10"] = "a dead target incarnation cannot hold a batch for ever: proxyStreamSender.Run passes close(sendMsgChan) on every way from its latch to its return - the close is what wakes a deliverer blocked on the full channel of an incarnation whose peer stopped reading (its send panics into the recover guard and the batch is retried on the successor); without it the source's receive loop stays parked behind that hand-over and nothing later is ever delivered or acknowledged"
+	checkSendChanClosedOnExit(c, res, "O3.10")
+	res.RuleDoc["O3.11"] = "the watermark replay reaches a (re)registered target: SetupCallbacks installs both shard-change callbacks, each calls notifyReceiversOfNewShard when a shard was added, that notifies every receiver routing to the shard's cluster, and both NotifyNewTargetShard implementations call sendPendingWatermarkToShard - each link on every path (O8.10 is the first link, O1.6 what is replayed)"
+	checkReplayChain(c, res, "O3.11")
 	checkNoSwallowedErrors(c, res, "O3.8", []string{"proxy/proxy_streams.go"})
 	res.RuleDoc["O3.9"] = "relay loops pass every message on: in every loop that takes messages from a stream or channel and forwards them, no path from the take to the next take avoids every stream Send / channel send / Deliver*ToShardOwner (a forwarding loop that runs zero times, the wrong-kind edges of a type assertion and a return that ends the stream are not bypasses; the ack aggregator sendAck is the reviewed exception)"
 	checkRelayLoops(c, res, "O3.9", []string{"proxy/proxy_streams.go", "proxy/intra_proxy_router.go"}, 5)
